@@ -77,7 +77,11 @@ def build_adapter(cmds, log, fmt=None):
             return g["f"]
         f = mk()
         f.__name__ = name
-        deco = RegexCommand(pat, intr, "utf-8") if kind == "text" else RegexCommand(pat, intr)
+        if not intr and i % 2 == 0:
+            # declared WITHOUT the interrupt argument (the documented default: no interrupt)
+            deco = RegexCommand(pat, format="utf-8") if kind == "text" else RegexCommand(pat)
+        else:
+            deco = RegexCommand(pat, intr, "utf-8") if kind == "text" else RegexCommand(pat, intr)
         ns[name] = deco(f)
     if fmt is not None:
         ns["_byte_format"] = ByteFormat(fmt)
@@ -519,7 +523,8 @@ def run(tier, seed, drv):
                 def mk(i=i, nm=nm, intr=intr):
                     ctor = (HttpEndpoint.put, HttpEndpoint.get, HttpEndpoint.post)[i % 3]
 
-                    @ctor(f"/{nm}/{{arg}}" if i % 2 else f"/{nm}", intr)
+                    # every other non-interrupting endpoint is declared WITHOUT the interrupt argument (documented default)
+                    @ctor(*((f"/{nm}/{{arg}}" if i % 2 else f"/{nm}",) + (() if (not intr and (i // 2) % 2 == 0) else (intr,))))
                     async def method(self, request):
                         log.append(("effect", nm))
                         return f"reply-{nm}"
